@@ -180,7 +180,8 @@ class FakeTransport:
         self._algo = sc["algo"]
         self._modulus = sc["modulus"]
         self._expected_packet = tuple()
-        self.K = self.H = self.session_id = None
+        self.K = self.H = None
+        self.session_id = sc.get("sid")  # a re-exchange: the session id of the first exchange is already set
         self.trace = trace
 
     def _log(self, *a, **k):
@@ -376,7 +377,8 @@ def base_scenario(rng, engine, role, mode="gate"):
             "lk": rng.randbytes(rng.randrange(1, 40)), "rk": rng.randbytes(rng.randrange(1, 40)),
             "hostkey": rng.randbytes(rng.randrange(1, 30)),
             "algo": rng.choice([b"ssh-ed25519", b"rsa-sha2-512", b"ecdsa-sha2-nistp256", b"toy"]),
-            "x": 2, "verify": rng.choice(["yes", "yes", "toy", "no"]), "modulus": None, "pkts": [], "old": False}
+            "x": 2, "verify": rng.choice(["yes", "yes", "toy", "no"]), "modulus": None, "pkts": [], "old": False,
+            "sid": rng.choice([None, None, b"first-exchange-hash"])}
 
 
 def boundary_values(rng, p, extra_random=3):
@@ -617,6 +619,25 @@ class E2E:
             t.join(10)
 
 
+def tamper_outgoing(t, ptype, kinds, idx, value, hit):
+    """make transport `t` send an altered key-exchange message (one field replaced) the next time it sends a
+    message of type `ptype` — the equivalent of a man in the middle for traffic that is already encrypted"""
+    from paramiko.message import Message
+
+    orig = t._send_message
+
+    def send(m):
+        payload = m.asbytes()
+        if payload[0] == ptype and not hit:
+            f = split_fields(payload, kinds)
+            f[idx] = value
+            hit.append(1)
+            m = Message(rebuild(ptype, *zip(kinds, f)))
+        orig(m)
+
+    t._send_message = send
+
+
 def rebuild(ptype, *fields):
     """payload from (kind, value) fields: 's' bytes, 'm' mpint, 'u' uint32"""
     out = bytes([ptype])
@@ -667,6 +688,7 @@ def rand_x(rng, p):
 
 def sc_json(sc):
     out = dict(sc)
+    out["sid"] = sc["sid"].hex() if sc.get("sid") else None
     for k in ("lv", "rv", "lk", "rk", "hostkey", "algo"):
         out[k] = sc[k].hex()
     out["pkts"] = [[t, b.hex(), x] for t, b, x in sc["pkts"]]
@@ -676,6 +698,7 @@ def sc_json(sc):
 
 def sc_from_json(d):
     sc = dict(d)
+    sc["sid"] = bytes.fromhex(d["sid"]) if d.get("sid") else None
     for k in ("lv", "rv", "lk", "rk", "hostkey", "algo"):
         sc[k] = bytes.fromhex(d[k])
     sc["pkts"] = [(t, bytes.fromhex(b), x) for t, b, x in d["pkts"]]
